@@ -36,6 +36,20 @@ Inductive auth_result :=
 | Auth_done (code : N)               (* a final reply was written and EDONE returned: 535 (after sleep), 504, 501, 454 *)
 | Auth_multi.                        (* the mechanism goes on reading lines: outside this model (property C09) *)
 
+(** result of a command handler: errno-style code as in smtploop (HEXIT: the process ends, e.g. dieerror()) *)
+Inductive hres := H0 | HEINVAL | HE2BIG | HENOEXEC | HSEQ (* 1 *) | HEDONE | HEBOGUS | HEMSGSIZE | HUNKNOWN | HEXIT | HEPROTO | HENOMEM.
+
+(** the one evaluation of tls_verify() (qsmtpd/starttls.c) that gets past its guard on a connection: control/tlsclients,
+    clientca.pem, the rehandshake that requests the client certificate, its verification and the comparison of its
+    address with the list (all of it: Model/TlsVerify.v, property C01t) *)
+Inductive tv_result :=
+| TV_no                              (* 0: not entitled (no list, no CA file, no certificate, does not verify, address not listed) *)
+| TV_yes (name : bytes)              (* 1: xmitstat.tlsclient = name *)
+| TV_err (wrote454 : bool) (h : hres). (* < 0: -errno of loadlistfd / strdup (nothing written), or tls_out() after its "454 4.3.0 TLS ..."
+                                        went out; h: the class of that errno in smtploop's switch (HEPROTO after a failed session id
+                                        context or rehandshake, HENOMEM, ...).  HEXIT: the process ends without a further reply -
+                                        the rehandshake timed out (dieerror(ETIMEDOUT) inside tls_check_cert) or ECONNRESET *)
+
 Record oracles := {
   o_helo : bytes -> bool;                         (* helovalid() accepts the argument *)
   o_addr : bool -> bytes -> ap_result;            (* addrparse on the text after "MAIL FROM:" / "RCPT TO:" *)
@@ -48,11 +62,13 @@ Record oracles := {
   o_check2822 : bool;                             (* the recipients' check_strict_rfc2822 setting (uniform in the harness: global filterconf) *)
   o_authperm : bool;                              (* auth_permitted(): a backend is configured (and, with forcesslauth, TLS is active) *)
   o_auth : bytes -> auth_result;                  (* the mechanism handler on the text behind "AUTH " *)
-  o_trace : bytes -> bytes -> bytes -> bool -> bytes -> N -> bytes;  (* Received-SPF + Received lines: authname, helo, sender, esmtp, first recipient, relayclient *)
+  o_trace : bytes -> option bytes -> bytes -> bytes -> bool -> bytes -> N -> bytes;  (* Received-SPF + Received lines: authname, tlsclient, helo, sender, esmtp, first recipient, relayclient *)
   o_submission : bool;                            (* submission_mode: TCPLOCALPORT is "587" *)
   o_subm_date : bytes;                            (* the 31 octets date822() left in datebuf + 3 when the Received: line was written *)
   o_subm_stamp : bytes;                           (* gettimeofday() as ultostr(tv_sec) "." ultostr(tv_usec) *)
-  o_msgidhost : bytes                             (* control/msgidhost (default: the HELO name of control/me) *)
+  o_msgidhost : bytes;                            (* control/msgidhost (default: the HELO name of control/me) *)
+  o_tls : bool;                                   (* xmitstat.ssl != NULL: this channel is inside TLS *)
+  o_tlsverify : tv_result                         (* what tls_verify() does behind its guard (reached at most once per connection) *)
 }.
 
 (** ---------- state ---------- *)
@@ -71,7 +87,9 @@ Record sstate := {
   qcount : nat;
   check2822 : N;                      (* xmitstat.check2822: 2 = not decided yet, 1 = every recipient so far wants the check, 0 = off *)
   datatype : bool;                     (* xmitstat.datatype: the client declared 8-bit data *)
-  authname : bytes                    (* xmitstat.authname: [] = not authenticated; never reset on a connection *)
+  authname : bytes;                   (* xmitstat.authname: [] = not authenticated; never reset on a connection *)
+  tlsclient : option bytes;           (* xmitstat.tlsclient: the address of an accepted client certificate; None = NULL; reset by freedata() *)
+  ssl_verified : bool                 (* static ssl_verified of starttls.c: tls_verify() has done its check on this connection *)
 }.
 
 (** Ghost notes: not observable on the wire; they mark, inside the event
@@ -85,6 +103,7 @@ Inductive note :=
 | NWithdraw                                  (* second recipient of a bounce: all recipients accepted so far are withdrawn *)
 | NData (k : nat)                            (* DATA accepted: 354 sent, k-th qmail-queue invocation runs *)
 | NAuth (name : bytes)                        (* AUTH succeeded: xmitstat.authname = name *)
+| NCert (name : bytes)                        (* tls_verify() accepted the client certificate: xmitstat.tlsclient = name, relayclient = 1 *)
 | NBad                                       (* check_max_bad_commands() counted one more bad command *)
 | NBadReset                                  (* the bad command counter was set to 0 *)
 | NBadClose.                                 (* check_max_bad_commands() ends the connection *)
@@ -99,28 +118,30 @@ Inductive event :=
 Definition set_rd (s : sstate) (r : rstate) : sstate :=
   {| rd := r; comstate := comstate s; esmtp := esmtp s; helostr := helostr s; mailfrom := mailfrom s; rcpts := rcpts s;
      rcptcount := rcptcount s; goodrcpt := goodrcpt s; badcmds := badcmds s; relayclient := relayclient s;
-     thisbytes := thisbytes s; qcount := qcount s; check2822 := check2822 s; datatype := datatype s; authname := authname s |}.
+     thisbytes := thisbytes s; qcount := qcount s; check2822 := check2822 s; datatype := datatype s; authname := authname s ; tlsclient := tlsclient s; ssl_verified := ssl_verified s |}.
 Definition set_comstate (s : sstate) (c : N) : sstate :=
   {| rd := rd s; comstate := c; esmtp := esmtp s; helostr := helostr s; mailfrom := mailfrom s; rcpts := rcpts s;
      rcptcount := rcptcount s; goodrcpt := goodrcpt s; badcmds := badcmds s; relayclient := relayclient s;
-     thisbytes := thisbytes s; qcount := qcount s; check2822 := check2822 s; datatype := datatype s; authname := authname s |}.
+     thisbytes := thisbytes s; qcount := qcount s; check2822 := check2822 s; datatype := datatype s; authname := authname s; tlsclient := tlsclient s; ssl_verified := ssl_verified s |}.
 Definition set_badcmds (s : sstate) (b : nat) : sstate :=
   {| rd := rd s; comstate := comstate s; esmtp := esmtp s; helostr := helostr s; mailfrom := mailfrom s; rcpts := rcpts s;
      rcptcount := rcptcount s; goodrcpt := goodrcpt s; badcmds := b; relayclient := relayclient s;
-     thisbytes := thisbytes s; qcount := qcount s; check2822 := check2822 s; datatype := datatype s; authname := authname s |}.
+     thisbytes := thisbytes s; qcount := qcount s; check2822 := check2822 s; datatype := datatype s; authname := authname s; tlsclient := tlsclient s; ssl_verified := ssl_verified s |}.
 
-(** is_authenticated_client() without TLS client certificates: AUTH succeeded on this connection *)
+(** xmitstat.authname.len != 0: AUTH succeeded on this connection *)
 Definition authed (s : sstate) : bool := match authname s with [] => false | _ => true end.
+(** is_authenticated_client(): an AUTH name or the address of an accepted client certificate *)
+Definition authed_client (s : sstate) : bool := authed s || match tlsclient s with Some _ => true | None => false end.
 
 Definition helo_state (e : bool) : N := if e then 16%N else 8%N.      (* 0x008 << esmtp *)
 Definition TRANS_STATES : N := 2144%N.                                 (* 0x0860: MAIL, RCPT, BDAT *)
 
-(** freedata(): sender, recipients, counters; leaves the transaction states *)
+(** freedata(): sender, recipients, counters, the certificate name; leaves the transaction states *)
 Definition freedata (s : sstate) : sstate :=
   {| rd := rd s;
      comstate := if N.eqb (N.land (comstate s) TRANS_STATES) 0 then comstate s else helo_state (esmtp s);
      esmtp := esmtp s; helostr := helostr s; mailfrom := []; rcpts := []; rcptcount := 0; goodrcpt := 0;
-     badcmds := badcmds s; relayclient := relayclient s; thisbytes := thisbytes s; qcount := qcount s; check2822 := check2822 s; datatype := datatype s; authname := authname s |}.
+     badcmds := badcmds s; relayclient := relayclient s; thisbytes := thisbytes s; qcount := qcount s; check2822 := check2822 s; datatype := datatype s; authname := authname s; tlsclient := None; ssl_verified := ssl_verified s |}.
 
 (** data_pending(): a byte waiting in the current segment is pulled into lineinn *)
 Definition data_pending (s : sstate) : bool * sstate :=
@@ -134,9 +155,6 @@ Definition data_pending (s : sstate) : bool * sstate :=
   end.
 
 Definition tarpit (s : sstate) : sstate := snd (data_pending s).
-
-(** result of a command handler: errno-style code as in smtploop *)
-Inductive hres := H0 | HEINVAL | HE2BIG | HENOEXEC | HSEQ (* 1 *) | HEDONE | HEBOGUS | HEMSGSIZE | HUNKNOWN | HEXIT.
 
 Definition strncaseeq (name line : bytes) : bool :=
   Nat.leb (length name) (length line)
@@ -361,33 +379,61 @@ Definition envelope (liphost from : bytes) (rc : list (bytes * bool)) : bytes :=
 Definition set_relayclient (s : sstate) (rc : N) : sstate :=
   {| rd := rd s; comstate := comstate s; esmtp := esmtp s; helostr := helostr s; mailfrom := mailfrom s;
      rcpts := rcpts s; rcptcount := rcptcount s; goodrcpt := goodrcpt s; badcmds := badcmds s;
-     relayclient := rc; thisbytes := thisbytes s; qcount := qcount s; check2822 := check2822 s; datatype := datatype s; authname := authname s |}.
+     relayclient := rc; thisbytes := thisbytes s; qcount := qcount s; check2822 := check2822 s; datatype := datatype s; authname := authname s; tlsclient := tlsclient s; ssl_verified := ssl_verified s |}.
 Definition set_authname (s : sstate) (nm : bytes) : sstate :=
   {| rd := rd s; comstate := comstate s; esmtp := esmtp s; helostr := helostr s; mailfrom := mailfrom s;
      rcpts := rcpts s; rcptcount := rcptcount s; goodrcpt := goodrcpt s; badcmds := badcmds s;
-     relayclient := relayclient s; thisbytes := thisbytes s; qcount := qcount s; check2822 := check2822 s; datatype := datatype s; authname := nm |}.
+     relayclient := relayclient s; thisbytes := thisbytes s; qcount := qcount s; check2822 := check2822 s; datatype := datatype s; authname := nm; tlsclient := tlsclient s; ssl_verified := ssl_verified s |}.
 
-(** is_authenticated() for an address outside rcpthosts: the relay list is looked up once and the
-    outcome is cached in relayclient (1 allowed, 2 not); it is set to 2 BEFORE the result is
-    inspected, so an unreadable or malformed list never allows relaying.
-    Result: (may relay, new state, reply already written on a lookup error). *)
-Definition relay_decide (o : oracles) (s : sstate) (cls : rclass) : bool * sstate * list event :=
+Definition set_tlsclient (s : sstate) (tc : option bytes) : sstate :=
+  {| rd := rd s; comstate := comstate s; esmtp := esmtp s; helostr := helostr s; mailfrom := mailfrom s;
+     rcpts := rcpts s; rcptcount := rcptcount s; goodrcpt := goodrcpt s; badcmds := badcmds s;
+     relayclient := relayclient s; thisbytes := thisbytes s; qcount := qcount s; check2822 := check2822 s; datatype := datatype s; authname := authname s; tlsclient := tc; ssl_verified := ssl_verified s |}.
+Definition set_verified (s : sstate) : sstate :=
+  {| rd := rd s; comstate := comstate s; esmtp := esmtp s; helostr := helostr s; mailfrom := mailfrom s;
+     rcpts := rcpts s; rcptcount := rcptcount s; goodrcpt := goodrcpt s; badcmds := badcmds s;
+     relayclient := relayclient s; thisbytes := thisbytes s; qcount := qcount s; check2822 := check2822 s; datatype := datatype s; authname := authname s; tlsclient := tlsclient s; ssl_verified := true |}.
+
+(** tls_verify(): "if (!xmitstat.ssl || ssl_verified || is_authenticated_client()) return 0; ssl_verified = 1;" and then the
+    check, whose outcome is the oracle.  None = returned 0 at once. *)
+Definition tls_verify (o : oracles) (s : sstate) : option tv_result * sstate :=
+  if negb (o_tls o) || ssl_verified s || authed_client s then (None, s)
+  else (Some (o_tlsverify o), set_verified s).
+
+(** result of is_authenticated(): may relay / may not / an error code (< 0) that the caller passes on *)
+Inductive rdres := RD_ok (allowed : bool) | RD_fail (h : hres).
+
+(** is_authenticated() for an address outside rcpthosts.
+    1. is_authenticated_client(): an AUTH name or an accepted certificate entitles; nothing else is consulted.
+    2. the relay list is looked up once and the outcome is cached in relayclient (1 allowed, 2 not); it is set to 2
+       BEFORE the result is inspected, so an unreadable or malformed list never allows relaying (421 written, -EDONE).
+    3. "if (!(relayclient & 1)) { i = tls_verify(); if (i < 0) return i; relayclient = i ? 1 : relayclient; }"
+    4. "return (relayclient == 1) ? 1 : 0".
+    Result: (decision, new state, what was written: a 421 / 454 reply; the ghost note of an accepted certificate). *)
+Definition relay_decide (o : oracles) (s : sstate) (cls : rclass) : rdres * sstate * list event :=
   match cls with
-  | RLocal => (true, s, [])
+  | RLocal => (RD_ok true, s, [])
   | RNotLocal =>
-      (* is_authenticated_client(): a successful AUTH on this connection entitles to relay; the relay list is not consulted *)
-      if authed s then (true, s, []) else
-      if N.eqb (relayclient s) 0 then
-        let rc := if Z.ltb 0 (o_relay o) then 1%N else 2%N in
-        if Z.ltb (o_relay o) 0 then (false, set_relayclient s 2%N, [Reply 421])
-        else (N.eqb rc 1, set_relayclient s rc, [])
-      else (N.eqb (relayclient s) 1, s, [])
+      if authed_client s then (RD_ok true, s, []) else
+      let '(lerr, s1) :=
+        if N.eqb (relayclient s) 0 then (Z.ltb (o_relay o) 0, set_relayclient s (if Z.ltb 0 (o_relay o) then 1%N else 2%N))
+        else (false, s) in
+      if lerr then (RD_fail HEDONE, s1, [Reply 421])
+      else if N.eqb (N.land (relayclient s1) 1) 0 then
+        match tls_verify o s1 with
+        | (None, s2) | (Some TV_no, s2) => (RD_ok (N.eqb (relayclient s2) 1), s2, [])
+        | (Some (TV_yes name), s2) => (RD_ok true, set_relayclient (set_tlsclient s2 (Some name)) 1%N, [Note (NCert name)])
+        | (Some (TV_err w h), s2) =>
+            (RD_fail (match h with H0 => HUNKNOWN | _ => h end), s2,
+             (if w then [Reply 454] else []) ++ (match h with HEXIT => [Closed] | _ => [] end))
+        end
+      else (RD_ok (N.eqb (relayclient s1) 1), s1, [])
   end.
 
 (** the gate of smtp_from in submission mode: the same is_authenticated() as for a recipient outside rcpthosts
-    (AUTH on this connection, or the relay list, cached in relayclient); on other ports there is no gate *)
-Definition subm_gate (o : oracles) (s : sstate) : bool * sstate * list event :=
-  if o_submission o then relay_decide o s RNotLocal else (true, s, []).
+    (AUTH or certificate on this connection, or the relay list, cached in relayclient); on other ports there is no gate *)
+Definition subm_gate (o : oracles) (s : sstate) : rdres * sstate * list event :=
+  if o_submission o then relay_decide o s RNotLocal else (RD_ok true, s, []).
 
 Definition h_rcpt (o : oracles) (s : sstate) (arg : bytes) : list event * hres * sstate :=
   match o_addr o true arg with
@@ -399,34 +445,34 @@ Definition h_rcpt (o : oracles) (s : sstate) (arg : bytes) : list event * hres *
   | AP_syntax => ([Reply 501], HEBOGUS, tarpit s)
   | AP_nouser => ([Reply 550], HEBOGUS, tarpit s)
   | AP_ok addr more cls =>
-      let '(allowed, s1, pre) := relay_decide o s cls in
-      match pre with
-      | _ :: _ => (pre, HEDONE, s1)                     (* error reading the relay list: 421 written, nothing accepted *)
-      | [] =>
-      if negb allowed then ([Reply 551], HEBOGUS, tarpit s1)
+      let '(res, s1, pre) := relay_decide o s cls in
+      match res with
+      | RD_fail h => (pre, h, s1)                       (* error reading the relay list (421 written) or in tls_verify(): nothing accepted *)
+      | RD_ok allowed =>
+      if negb allowed then (pre ++ [Reply 551], HEBOGUS, tarpit s1)
       else
         let mx := match cls with RNotLocal => o_mx o addr | RLocal => 0 end in
-        if Nat.eqb mx 1 then ([Reply 451], HEDONE, s1)
-        else if Nat.eqb mx 2 then ([Reply 556], HEDONE, s1)
+        if Nat.eqb mx 1 then (pre ++ [Reply 451], HEDONE, s1)
+        else if Nat.eqb mx 2 then (pre ++ [Reply 556], HEDONE, s1)
         else match more with
-        | Some _ => ([], HEINVAL, s1)
+        | Some _ => (pre, HEINVAL, s1)
         | None =>
             let bounce2 := Nat.ltb 0 (rcptcount s1) && match mailfrom s1 with [] => true | _ => false end in
             if bounce2 then
               (* 550, the first recipient is withdrawn, goodrcpt = 0 *)
               let rc' := match rcpts s1 with (a, _) :: t => (a, false) :: t | [] => [] end ++ [(addr, false)] in
-              ([Note NWithdraw; Reply 550], HEBOGUS,
+              (pre ++ [Note NWithdraw; Reply 550], HEBOGUS,
                tarpit {| rd := rd s1; comstate := comstate s1; esmtp := esmtp s1; helostr := helostr s1; mailfrom := mailfrom s1;
                          rcpts := rc'; rcptcount := S (rcptcount s1); goodrcpt := 0; badcmds := badcmds s1;
-                         relayclient := relayclient s1; thisbytes := thisbytes s1; qcount := qcount s1; check2822 := check2822 s1; datatype := datatype s1; authname := authname s1 |})
+                         relayclient := relayclient s1; thisbytes := thisbytes s1; qcount := qcount s1; check2822 := check2822 s1; datatype := datatype s1; authname := authname s1; tlsclient := tlsclient s1; ssl_verified := ssl_verified s1 |})
             else
-              ([Note (NRcpt addr cls); Reply 250], H0,
+              (pre ++ [Note (NRcpt addr cls); Reply 250], H0,
                {| rd := rd s1; comstate := comstate s1; esmtp := esmtp s1; helostr := helostr s1; mailfrom := mailfrom s1;
                   rcpts := rcpts s1 ++ [(addr, true)]; rcptcount := S (rcptcount s1); goodrcpt := S (goodrcpt s1);
                   badcmds := badcmds s1; relayclient := relayclient s1; thisbytes := thisbytes s1; qcount := qcount s1;
                   (* cb_check2822: one recipient without the setting switches the check off for the connection *)
                   check2822 := if N.eqb (check2822 s1) 0 then 0%N else if o_check2822 o then 1%N else 0%N;
-                  datatype := datatype s1; authname := authname s1 |})
+                  datatype := datatype s1; authname := authname s1; tlsclient := tlsclient s1; ssl_verified := ssl_verified s1 |})
         end
       end
   end
@@ -436,38 +482,38 @@ Definition h_from (o : oracles) (s : sstate) (arg : bytes) (linelen : nat) : lis
   let clear (s : sstate) :=
     {| rd := rd s; comstate := comstate s; esmtp := esmtp s; helostr := helostr s; mailfrom := []; rcpts := rcpts s;
        rcptcount := rcptcount s; goodrcpt := goodrcpt s; badcmds := badcmds s; relayclient := relayclient s;
-       thisbytes := 0%N; qcount := qcount s; check2822 := check2822 s; datatype := false; authname := authname s |} in
+       thisbytes := 0%N; qcount := qcount s; check2822 := check2822 s; datatype := false; authname := authname s; tlsclient := tlsclient s; ssl_verified := ssl_verified s |} in
   let s := clear s in
   match o_addr o false arg with
   | AP_nobracket => ([], HEINVAL, s)
   | apr =>
   (* "if we are in submission mode we require authentication before any mail": is_authenticated(), before addrparse *)
-  let '(allowed, s, pre) := subm_gate o s in
-  match pre with
-  | _ :: _ => (pre, HEDONE, s)                        (* error reading the relay list: 421 written *)
-  | [] =>
-  if negb allowed then ([Reply 550], HEDONE, s)      (* "550 5.7.1 authentication required" *)
+  let '(res, s, pre) := subm_gate o s in
+  match res with
+  | RD_fail h => (pre, h, s)                          (* error reading the relay list (421 written) or in tls_verify() *)
+  | RD_ok allowed =>
+  if negb allowed then (pre ++ [Reply 550], HEDONE, s)      (* "550 5.7.1 authentication required" *)
   else
   match apr with
-  | AP_nobracket => ([], HEINVAL, s)
-  | AP_syntax => ([Reply 501], HEBOGUS, tarpit s)
-  | AP_nouser => ([Reply 550], HEBOGUS, tarpit s)
+  | AP_nobracket => (pre, HEINVAL, s)
+  | AP_syntax => (pre ++ [Reply 501], HEBOGUS, tarpit s)
+  | AP_nouser => (pre ++ [Reply 550], HEBOGUS, tarpit s)
   | AP_ok addr more _ =>
       match (if esmtp s then None else more) with
-      | Some _ => ([], HEINVAL, s)
+      | Some _ => (pre, HEINVAL, s)
       | None =>
           match (match more with Some m => o_ext o m | None => Ext_ok 0%N 0 None end) with
-          | Ext_einval => ([], HEINVAL, s)
-          | Ext_enoexec => ([], HENOEXEC, s)
+          | Ext_einval => (pre, HEINVAL, s)
+          | Ext_enoexec => (pre, HENOEXEC, s)
           | Ext_ok tb bonus body8 =>
-              if Nat.ltb (CMD_LINE_MAX + bonus) linelen then ([], HE2BIG, s)
-              else if negb (N.eqb (o_databytes o) 0) && N.ltb (o_databytes o) tb then ([Reply 452], HEDONE, s)
+              if Nat.ltb (CMD_LINE_MAX + bonus) linelen then (pre, HE2BIG, s)
+              else if negb (N.eqb (o_databytes o) 0) && N.ltb (o_databytes o) tb then (pre ++ [Reply 452], HEDONE, s)
               else
-                ([Note (NMail addr); Reply 250], H0,
+                (pre ++ [Note (NMail addr); Reply 250], H0,
                  {| rd := rd s; comstate := comstate s; esmtp := esmtp s; helostr := helostr s; mailfrom := addr; rcpts := rcpts s;
                     rcptcount := rcptcount s; goodrcpt := 0; badcmds := badcmds s; relayclient := relayclient s;
                     thisbytes := tb; qcount := qcount s; check2822 := check2822 s;
-                    datatype := match body8 with Some b => b | None => false end; authname := authname s |})
+                    datatype := match body8 with Some b => b | None => false end; authname := authname s; tlsclient := tlsclient s; ssl_verified := ssl_verified s |})
           end
       end
   end
@@ -484,9 +530,9 @@ Definition h_data (fuel : nat) (o : oracles) (s : sstate) : list event * hres * 
         let k := qcount s in
         let s := {| rd := rd s; comstate := comstate s; esmtp := esmtp s; helostr := helostr s; mailfrom := mailfrom s;
                     rcpts := rcpts s; rcptcount := rcptcount s; goodrcpt := goodrcpt s; badcmds := badcmds s;
-                    relayclient := relayclient s; thisbytes := thisbytes s; qcount := S k; check2822 := check2822 s; datatype := datatype s; authname := authname s |} in
+                    relayclient := relayclient s; thisbytes := thisbytes s; qcount := S k; check2822 := check2822 s; datatype := datatype s; authname := authname s; tlsclient := tlsclient s; ssl_verified := ssl_verified s |} in
         let first := match rcpts s with (a, _) :: _ => a | [] => [] end in
-        let trace := o_trace o (authname s) (helostr s) (mailfrom s) (esmtp s) first (relayclient s) in
+        let trace := o_trace o (authname s) (tlsclient s) (helostr s) (mailfrom s) (esmtp s) first (relayclient s) in
         let dc := {| d_wfail := match o_qq o k with QQ_die_early => true | _ => false end;
                      d_chk := N.eqb (check2822 s) 1; d_dt := datatype s;
                      d_rcpts := map fst (filter (fun x => snd x) (rcpts s));
@@ -553,6 +599,8 @@ Definition on_error (s : sstate) (h : hres) : list event * option sstate :=
     | HEMSGSIZE => ([Note NBad; Note NBadReset; Reply 552], Some (set_badcmds s 0))
     | HUNKNOWN => ([Note NBad; Note NBadReset; Reply 500], Some (set_badcmds s 0))   (* default branch: "500 5.3.0 unknown error" *)
     | HEBOGUS => ([Note NBad], Some s)
+    | HEPROTO => ([Note NBad; Reply 550], Some s)                                     (* "550 5.7.5 data encryption error" *)
+    | HENOMEM => ([Note NBad; Note NBadReset; Reply 452], Some (set_badcmds s 0))     (* "452-4.3.0 out of memory" ... "452 4.3.0 please try again later" *)
     | H0 | HEXIT => ([], Some s)
     end.
 
@@ -576,12 +624,12 @@ Definition run_handler (f : nat) (o : oracles) (s : sstate) (l : bytes) (namelen
       let s' := freedata s in
       let s' := {| rd := rd s'; comstate := comstate s'; esmtp := false; helostr := helostr s'; mailfrom := mailfrom s';
                    rcpts := rcpts s'; rcptcount := rcptcount s'; goodrcpt := goodrcpt s'; badcmds := badcmds s';
-                   relayclient := relayclient s'; thisbytes := thisbytes s'; qcount := qcount s'; check2822 := check2822 s'; datatype := false; authname := authname s' |} in
+                   relayclient := relayclient s'; thisbytes := thisbytes s'; qcount := qcount s'; check2822 := check2822 s'; datatype := false; authname := authname s'; tlsclient := tlsclient s'; ssl_verified := ssl_verified s' |} in
       if o_helo o (skipn 5 l) then
         ([Note NBoundary; Note NHelo; Note (NEsmtp false); Reply 250], H0,
          {| rd := rd s'; comstate := comstate s'; esmtp := false; helostr := skipn 5 l; mailfrom := mailfrom s';
             rcpts := rcpts s'; rcptcount := rcptcount s'; goodrcpt := goodrcpt s'; badcmds := badcmds s';
-            relayclient := relayclient s'; thisbytes := thisbytes s'; qcount := qcount s'; check2822 := check2822 s'; datatype := datatype s'; authname := authname s' |}, st)
+            relayclient := relayclient s'; thisbytes := thisbytes s'; qcount := qcount s'; check2822 := check2822 s'; datatype := datatype s'; authname := authname s'; tlsclient := tlsclient s'; ssl_verified := ssl_verified s' |}, st)
       else ([Note NBoundary], HEINVAL, s', st)
   | 4 => (* smtp_ehlo *)
       let s' := freedata s in
@@ -589,15 +637,16 @@ Definition run_handler (f : nat) (o : oracles) (s : sstate) (l : bytes) (namelen
         ([Note NBoundary; Note NHelo; Note (NEsmtp true); Reply 250], H0,
          {| rd := rd s'; comstate := comstate s'; esmtp := true; helostr := skipn 5 l; mailfrom := mailfrom s';
             rcpts := rcpts s'; rcptcount := rcptcount s'; goodrcpt := goodrcpt s'; badcmds := badcmds s';
-            relayclient := relayclient s'; thisbytes := thisbytes s'; qcount := qcount s'; check2822 := check2822 s'; datatype := datatype s'; authname := authname s' |}, st)
+            relayclient := relayclient s'; thisbytes := thisbytes s'; qcount := qcount s'; check2822 := check2822 s'; datatype := datatype s'; authname := authname s'; tlsclient := tlsclient s'; ssl_verified := ssl_verified s' |}, st)
       else ([Note NBoundary], HEINVAL, s', st)
   | 5 => let '(e, h, s') := h_from o s rest_ (length l) in (e, h, s', st)
   | 6 => let '(e, h, s') := h_rcpt o s rest_ in (e, h, s', st)
   | 7 => let '(e, h, s') := h_data f o s in
          (e, h, s', match h with H0 => Z.of_N (helo_state (esmtp s')) | _ => st end)
-  | 8 => (* STARTTLS without a certificate (harness configuration): tls_err() writes 454 and returns -EDONE,
-            which smtploop does not know: "500 5.3.0 unknown error" follows *)
-         ([Reply 454], HUNKNOWN, s, st)
+  | 8 => (* smtp_starttls: "if (xmitstat.ssl || !xmitstat.esmtp) return 1" (no TLS in this model; the flag can be clear in the
+            EHLO state: a refused HELO clears it); then, without a certificate (harness configuration), tls_err() writes 454
+            and returns -EDONE, which smtploop does not know: "500 5.3.0 unknown error" follows *)
+         if negb (esmtp s) then ([], HSEQ, s, st) else ([Reply 454], HUNKNOWN, s, st)
   | 9 => (* smtp_auth: "if (xmitstat.authname.len || !auth_permitted()) return 1" *)
       if authed s || negb (o_authperm o) then ([], HSEQ, s, st)
       else match o_auth o (skipn 5 l) with
@@ -669,7 +718,7 @@ Fixpoint serve (fuel : nat) (o : oracles) (s : sstate) : list event :=
 Definition init_state (chunks : list bytes) : sstate :=
   {| rd := {| inn := []; en := {| cur := []; future := chunks |} |};
      comstate := 1%N; esmtp := false; helostr := []; mailfrom := []; rcpts := []; rcptcount := 0; goodrcpt := 0;
-     badcmds := 0; relayclient := 0%N; thisbytes := 0%N; qcount := 0; check2822 := 2%N; datatype := false; authname := [] |}.
+     badcmds := 0; relayclient := 0%N; thisbytes := 0%N; qcount := 0; check2822 := 2%N; datatype := false; authname := []; tlsclient := None; ssl_verified := false |}.
 
 Definition session_fuel (chunks : list bytes) : nat := S (S (length (concat chunks))).
 
